@@ -266,6 +266,40 @@ pub fn generate(s: &mut Session, tier: &str, rng: &mut Rng) {
             keys.push(instr[17..33].to_vec());
         }
     }
+    // both directions of one session: "no two ciphertexts under one key share a nonce" also across directions.  The payload
+    // ciphers have a key and IV per direction; the length cipher of the AuthenticatedLength option is looked at here: the
+    // i-th size field of the request and the i-th size field of the response are opened with one and the same key and nonce
+    s.begin_case("vmess:directions");
+    for cipher in ["aes-128-gcm", "chacha20-poly1305"] {
+        let (c, sv) = (s.fresh("c"), s.fresh("s"));
+        s.run(&format!("vm.client {} uuid={} cipher={} cmd=tcp addr={}", c, uuid, cipher, random_addr(rng)));
+        s.run(&format!("vm.server {} users=u:{}", sv, uuid));
+        let Some(req) = encode_all(s, &c, &[rng.bytes(20)]) else { return };
+        let d = feed_all(s, &sv, &[req.clone()], false);
+        if d.err || d.connect.is_none() {
+            continue;
+        }
+        let Some(resp) = encode_all(s, &sv, &[rng.bytes(33)]) else { return };
+        let a = cr.ask(&format!("spec.parse.vm uuid={} cipher={} wire={}", uuid, cipher, hex(&req)));
+        let instr = unhex(field(&a, "instr").unwrap_or("-")).unwrap_or_default();
+        if instr.len() < 41 {
+            continue;
+        }
+        let (iv, key) = (instr[1..17].to_vec(), instr[17..33].to_vec());
+        // request: auth id 16, sealed length 18, nonce 8, sealed instruction; response: sealed length 18, sealed header 4 + 16
+        let req_size = 16 + 18 + 8 + instr.len() + 16;
+        let resp_size = 18 + 4 + 16;
+        if req.len() < req_size + 18 || resp.len() < resp_size + 18 {
+            continue;
+        }
+        let open = |cr: &mut Crafter, ct: &[u8]| cr.ask(&format!("spec.vm.lenopen cipher={} key={} iv={} count=0 ct={}", cipher, hex(&key), hex(&iv), hex(ct)));
+        let (r1, r2) = (open(&mut cr, &req[req_size..req_size + 18]), open(&mut cr, &resp[resp_size..resp_size + 18]));
+        s.count("spec:lenopen");
+        if r1.starts_with("ok") && r2.starts_with("ok") && req[req_size..req_size + 18] != resp[resp_size..resp_size + 18] {
+            s.oracle_fail("vmess:authlen-key-nonce-shared-by-directions", &format!("{}: the first size field of the request ({}) and the first size field of the response ({}) are two ciphertexts under the same key KDF(request body key, \"auth_len\") and the same nonce (request body IV, count 0)", cipher, r1, r2));
+        }
+    }
+    s.mark_nontrivial();
     check_fresh(s, "vmess", "the auth id", &aids);
     check_fresh(s, "vmess", "the connection nonce", &nonces);
     check_fresh(s, "vmess", "the body IV", &ivs);
